@@ -669,6 +669,52 @@ Proof.
   destruct (pl_ideal_step _ _ _ _ _ Hw E) as [A [B _]]. constructor; [exact B | apply IH; exact A].
 Qed.
 
+(** no operation of the ideal model ever modifies a filter instance that exists: instances are only
+    appended.  A request that is half-way through the filters of a generation while an update
+    happens therefore sees exactly the instances it would have seen (interleaving at filter
+    granularity adds nothing to the atomic [pl_flow_run]). *)
+Lemma pl_ideal_step_appends : forall specs w o w' ob,
+  pl_wf w -> pl_step rideal specs w o = (w', ob) -> exists more, pw_insts w' = pw_insts w ++ more.
+Proof.
+  intros specs w o w' ob Hw H. destruct o as [s | s from | g]; simpl in H.
+  - destruct (pl_reload rideal w (nth s specs []) None) as [[w2 evs] pk] eqn:R. inversion H; subst.
+    destruct (pl_reload_ideal _ _ _ _ _ _ Hw R) as [_ [_ [M _]]]. exact M.
+  - destruct (nth_error (pw_gens w) from) as [pg|]; [|inversion H; subst; exists []; rewrite app_nil_r; reflexivity].
+    destruct (pl_reload rideal w (nth s specs []) (Some pg)) as [[w2 evs] pk] eqn:R. inversion H; subst.
+    destruct (pl_reload_ideal _ _ _ _ _ _ Hw R) as [_ [_ [M _]]]. exact M.
+  - destruct (nth_error (pw_gens w) g) as [x|]; [|inversion H; subst; exists []; rewrite app_nil_r; reflexivity].
+    destruct (pl_flow_run (pw_insts w) (pg_flow x) []) as [evs r]. inversion H; subst.
+    exists []; rewrite app_nil_r; reflexivity.
+Qed.
+
+Fixpoint pl_final (q : rquirks) (specs : list (list pl_fspec)) (w : pl_world) (ops : list pl_op) : pl_world :=
+  match ops with
+  | [] => w
+  | o :: t => pl_final q specs (fst (pl_step q specs w o)) t
+  end.
+
+(** a request that holds generation [x]: whatever sequence of pipeline operations follows (updates
+    inheriting from it - directly or transitively -, its Close, traffic on any generation), [x] is
+    still generation [g], its instances are untouched and it handles the request as at the start *)
+Theorem pl_ideal_held_generation : forall specs ops w g x,
+  pl_wf w -> nth_error (pw_gens w) g = Some x ->
+  nth_error (pw_gens (pl_final rideal specs w ops)) g = Some x /\
+  (exists more, pw_insts (pl_final rideal specs w ops) = pw_insts w ++ more) /\
+  pl_flow_run (pw_insts (pl_final rideal specs w ops)) (pg_flow x) [] = pl_flow_run (pw_insts w) (pg_flow x) [] /\
+  snd (pl_flow_run (pw_insts w) (pg_flow x) []) <> PPanic.
+Proof.
+  intros specs ops; induction ops as [|o t IH]; intros w g x Hw Hx; simpl.
+  - split; [exact Hx|]. split; [exists []; rewrite app_nil_r; reflexivity|]. split; [reflexivity|].
+    apply flow_run_ok; [apply Hw|]. destruct Hw as [_ Hg]. rewrite Forall_forall in Hg. apply Hg.
+    eapply nth_error_In; exact Hx.
+  - destruct (pl_step rideal specs w o) as [w1 ob] eqn:E. simpl.
+    destruct (pl_ideal_step _ _ _ _ _ Hw E) as [Hw1 [_ Fr]]. destruct (Fr g x Hx) as [Hx1 Eq1].
+    destruct (pl_ideal_step_appends _ _ _ _ _ Hw E) as [m1 M1].
+    destruct (IH w1 g x Hw1 Hx1) as [A [[m2 B] [C D]]].
+    split; [exact A|]. split; [exists (m1 ++ m2); rewrite B, M1, app_assoc; reflexivity|].
+    split; [rewrite C; exact Eq1 | rewrite <- Eq1; exact D].
+Qed.
+
 (** * Part 4: TrafficController *)
 
 Lemma slookup_sset_same {A} : forall (l : list (string * A)) k v, slookup k (sset k v l) = Some v.
@@ -812,6 +858,27 @@ Proof.
     destruct (slookup ns (ts_spaces st)) as [s|]; simpl; [|reflexivity].
     unfold tc_lookup; simpl. rewrite slookup_sdel_other by (intro; subst; apply N; reflexivity). reflexivity.
 Qed.
+
+(** * The composite statements registered in props/C11.v *)
+
+Theorem old_generation_completes :
+  (forall ops, Forall op_ok ops ->
+     Forall (fun ob => ob <> OHandle FPanic /\ ob <> OInheritPanic) (frun ideal fworld0 ops)) /\
+  (forall w s from now w' ob,
+     fwf w -> spec_ok s -> fstep ideal w (FInherit s from now) = (w', ob) ->
+     forall gi g, nth_error (w_gens w) gi = Some g ->
+       nth_error (w_gens w') gi = Some g /\
+       forall now' m, snd (flt_handle (w_heap w') g now' m) = snd (flt_handle (w_heap w) g now' m)).
+Proof. split; [intros ops H; apply rl_ideal_never_panics; [exact fwf0 | exact H] | exact rl_inherit_frame]. Qed.
+
+Theorem old_pipeline_generation_completes :
+  (forall specs ops, Forall obs_fine (pl_run rideal specs pl_world0 ops)) /\
+  (forall specs ops w g x, pl_wf w -> nth_error (pw_gens w) g = Some x ->
+     nth_error (pw_gens (pl_final rideal specs w ops)) g = Some x /\
+     (exists more, pw_insts (pl_final rideal specs w ops) = pw_insts w ++ more) /\
+     pl_flow_run (pw_insts (pl_final rideal specs w ops)) (pg_flow x) [] = pl_flow_run (pw_insts w) (pg_flow x) [] /\
+     snd (pl_flow_run (pw_insts w) (pg_flow x) []) <> PPanic).
+Proof. split; [intros specs ops; apply pl_ideal_never_panics; exact pl_wf0 | exact pl_ideal_held_generation]. Qed.
 
 (** * Refutations for the pinned code (closed witnesses) *)
 
